@@ -115,4 +115,17 @@ func init() {
 		Old: "			c.ctx.Set(node.KeyName, k.Interface())\n			c.ctx.Set(node.ValueName, v.Interface())", New: "			c.ctx.Set(node.KeyName, v.Interface())\n			c.ctx.Set(node.ValueName, k.Interface())", Expect: "R2"})
 	addMutant(Mutant{Name: "equiv-slice-loop-neq-header", Prop: "C08", File: "compiler.go", Equivalent: true,
 		Old: "for i := 0; i < riter.Len(); i++ {", New: "for i := 0; i != riter.Len(); i++ {"})
+	// ---- C16 ----
+	addMutant(Mutant{Name: "revert-args-before-bind", Prop: "C16", File: "compiler.go",
+		Old: "	vals := make([]interface{}, len(node.Parameters))\n	for i := range node.Parameters {\n		v, err := c.evalExpression(args[i])\n		if err != nil {\n			return nil, err\n		}\n\n		vals[i] = v\n	}\n\n	octx := c.ctx\n	defer func() { c.ctx = octx }()\n\n	c.ctx = c.ctx.New()\n	for i, p := range node.Parameters {\n		c.ctx.Set(p.Value, vals[i])\n	}\n",
+		New: "	octx := c.ctx\n	defer func() { c.ctx = octx }()\n\n	c.ctx = c.ctx.New()\n	for i, p := range node.Parameters {\n		v, err := c.evalExpression(args[i])\n		if err != nil {\n			return nil, err\n		}\n\n		c.ctx.Set(p.Value, v)\n	}\n", Expect: "R1"})
+	addMutant(Mutant{Name: "revert-arity-guard", Prop: "C16", File: "compiler.go",
+		Old: "	if len(args) < len(node.Parameters) {\n		return nil, fmt.Errorf(\"too few arguments in call to function (%d for %d)\", len(args), len(node.Parameters))\n	}\n", New: "", Expect: "R2"})
+	addMutant(Mutant{Name: "bind-next-argument", Prop: "C16", File: "compiler.go",
+		Old: "		c.ctx.Set(p.Value, vals[i])", New: "		c.ctx.Set(p.Value, vals[len(vals)-1-i])", Expect: "R2"})
+	addMutant(Mutant{Name: "return-nil-not-wrapped", Prop: "C16", File: "compiler.go",
+		Old: "	res, err := c.evalExpression(node.ReturnValue)\n	if err != nil {\n		return nil, err\n	}\n\n	if node.Type == token.RETURN {",
+		New: "	res, err := c.evalExpression(node.ReturnValue)\n	if err != nil || res == nil {\n		return nil, err\n	}\n\n	if node.Type == token.RETURN {", Expect: "R7"})
+	addMutant(Mutant{Name: "equiv-bind-by-index", Prop: "C16", File: "compiler.go", Equivalent: true,
+		Old: "	for i, p := range node.Parameters {\n		c.ctx.Set(p.Value, vals[i])\n	}", New: "	for i := range node.Parameters {\n		c.ctx.Set(node.Parameters[i].Value, vals[i])\n	}"})
 }
